@@ -161,6 +161,16 @@ func callBetween(fd *ast.FuncDecl, helper, before string) bool {
 		return false
 	}
 	var nilTest, call, next token.Pos
+	calls := 0 // the helper is called ONCE (for the selected operation), not also for other operations
+	ast.Inspect(fd.Body, func(n ast.Node) bool {
+		if c, ok := n.(*ast.CallExpr); ok && norm(c.Fun) == helper {
+			calls++
+		}
+		return true
+	})
+	if calls != 1 {
+		return false
+	}
 	ast.Inspect(fd.Body, func(n ast.Node) bool {
 		switch x := n.(type) {
 		case *ast.IfStmt:
